@@ -425,7 +425,7 @@ Definition witness_empty (o : obs) : case :=
      pk "sys-libs" "unneeded-1" "sys-libs/unneeded" None None FNone FNone FNone FNone]
     [0%N; 1%N; 2%N; 3%N; 4%N] true true
     [[None; None; Some top_rdep_text; Some (bs "!nls? ( ( ) ) ?? ( )")]; no_texts;
-     [None; None; Some (bs "sys-libs/libc"); None]; no_texts; no_texts] o.
+     [None; None; Some (bs "sys-libs/libc"); None]; no_texts; no_texts] (slots0 5) o.
 
 Example witness_empty_wf : wf (witness_empty no_obs) = true /\ kf (witness_empty no_obs) = 0%N.
 Proof. vm_compute. split; reflexivity. Qed.
@@ -441,5 +441,6 @@ Proof. vm_compute. reflexivity. Qed.
 Example omission_refused :
   let sys := ROk [bs "app-misc/top"] in
   let short := ROk [bs "app-misc/top-1"; bs "sys-libs/liba-1"] in
-  spec (witness_empty no_obs) (MkObs sys short sys short short) = false.
+  let m := model (witness_empty no_obs) in      (* the loader's part of the observation is as it should be *)
+  spec (witness_empty no_obs) (MkObs sys short sys short short (o_listed m) (o_loaded m)) = false.
 Proof. vm_compute. reflexivity. Qed.
